@@ -1,12 +1,13 @@
 #!/bin/bash
 # Re-runs the quick check of the property of every archived seeded change against that change and
-# reports whether it is (still) caught. Usage: tools/regress_seeds.sh [--with-c17]
+# reports whether it is (still) caught. Usage: [PROPS="C01 C05"] tools/regress_seeds.sh [--with-c17]
 cd /verif
 WITH17=${1:-}
 ok=0; bad=0
 for d in seeded/*/; do
     id=$(basename $d)
     prop=$(python3 -c "import json;print(json.load(open('$d/meta.json'))['property'])")
+    if [ -n "${PROPS:-}" ] && ! echo " $PROPS " | grep -q " $prop "; then continue; fi
     if [ "$prop" = C17 ] && [ "$WITH17" != --with-c17 ]; then echo "$id: skipped (C17, pass --with-c17)"; continue; fi
     if ! git -C /repo apply --check /verif/$d/patch.diff 2>/dev/null; then echo "$id: patch no longer applies"; bad=$((bad+1)); continue; fi
     r=$(MUTANT_TIMEOUT=1500 tools/try_mutant.sh $d/patch.diff $prop | tail -1)
